@@ -14,9 +14,10 @@ CONSTANTS
   Pairs = "%s"
   MaxAbsent = %d
   GroupProduct = %s
+  OddAll = %s
 INVARIANTS Theorems Dump
 CHECK_DEADLOCK FALSE
-""" % (("some", 2, "FALSE") if quick else ("all", 3, "TRUE"))
+""" % (("some", 2, "FALSE", "FALSE") if quick else ("all", 3, "TRUE", "TRUE"))
 
 
 def compact(e):
@@ -25,7 +26,7 @@ def compact(e):
         out.update({"cls": e["cls"], "pass1": e["pass1"]["res"], "pass2": e["pass2"]["res"],
                     "h0": e["h0"][:16], "h1": e["h1"][:16], "h2": e["h2"][:16]})
     else:
-        out.update({"present": e["present"], "hpresent": e["hpresent"], "txs": e["txs"], "tv": e["tv"], "in": e["in"][:80],
+        out.update({"present": e["present"], "hpresent": e["hpresent"], "txs": e["txs"], "tv": e["tv"], "cv": e["cv"], "in": e["in"][:80],
                     "res": e["res"], "where": e["where"]})
     return out
 
@@ -92,7 +93,7 @@ def run(ctx):
             d[e["res"]] = d.get(e["res"], 0) + 1
             parsed_objects += e["res"] == "object"
             if e["src"] == "presence":
-                distinct.add(("p", k, tuple(e["present"]), tuple(e["hpresent"]), json.dumps(e["txs"]), e["tv"]))
+                distinct.add(("p", k, tuple(e["present"]), tuple(e["hpresent"]), json.dumps(e["txs"]), e["tv"], e["cv"]))
             elif e["res"] != "error":
                 distinct.add(("b", k, e["in"]))
     for k in KINDS:
@@ -109,7 +110,8 @@ def run(ctx):
                 "value class (nil/empty/zero/typical/extreme/leading-zero/zone/sub-second ...) and %s two-field combinations, each "
                 "run through two real serialise/parse passes; field-presence patterns written with an independent protobuf encoder: all "
                 "2^15 transaction subsets, header subsets with <=%d absent or <=2 present fields plus malformed time fields, group "
-                "header x group subsets, blocks and transaction lists; plus seeded random values, random byte strings and mutated "
+                "header x group subsets, blocks and transaction lists, and the same patterns with odd field contents (signature not 65 bytes, "
+                "hashes of the wrong length, non-JSON in JSON-carrying fields, empty prove value); plus seeded random values, random byte strings and mutated "
                 "encodings. distinct_nontrivial: distinct class combinations, distinct presence patterns, and distinct random/mutated "
                 "inputs that were not plain parse errors" % ("selected" if quick else "all", 2 if quick else 3),
         "samples": samples,
